@@ -360,6 +360,10 @@ impl<'w> Run<'w> {
                         [0xABu8; 32]
                     }
                 });
+                iroh_docs::verif::set_sync_config(
+                    op["split"].as_u64().unwrap_or(2) as usize,
+                    op["maxset"].as_u64().unwrap_or(1) as usize,
+                );
                 let store = self.store.as_mut().unwrap();
                 let mut rep = iroh_docs::verif::replica(store, self.info.as_mut().unwrap());
                 let mut outcome = SyncOutcome::default();
@@ -495,6 +499,16 @@ pub const CLASSES: &[&str] = &[
     "flip_sig",
 ];
 
+pub fn gen_endpoint(r: &mut Rng, g: &GenCfg) -> Value {
+    match r.below(12) {
+        0 => json!([-1, 0, []]),
+        1 => json!([1, 99, [255]]),
+        2 => json!([0, 0, []]),
+        3 => json!([0, 99, key_json(KEYS[r.below(g.n_keys)])]),
+        _ => json!([0, 1 + r.below(g.n_auth as usize), key_json(KEYS[r.below(g.n_keys)])]),
+    }
+}
+
 pub struct GenCfg {
     pub n_auth: i64,
     pub n_keys: usize,
@@ -504,6 +518,7 @@ pub struct GenCfg {
     pub subs: bool,
     pub msgs: bool,
     pub admin: bool,
+    pub ranges: bool,
 }
 
 pub fn gen_entry(r: &mut Rng, g: &GenCfg, now: u64) -> Value {
@@ -565,6 +580,27 @@ pub fn gen_history(r: &mut Rng, g: &GenCfg) -> Vec<Value> {
             let k = KEYS[r.below(g.n_keys)];
             let t = 1 + r.below(g.max_ts as usize) as u64;
             json!({"op":"delete","a":a,"k":key_json(k),"now":t})
+        } else if g.ranges && x < 75 {
+            // primitive sweep (C08): fingerprint parts with an impossible / the empty fingerprint and item
+            // parts that request our entries, over arbitrary ranges (x<y, x>y, x=y; foreign endpoints)
+            let np = 1 + r.below(2);
+            let parts: Vec<Value> = (0..np)
+                .map(|_| {
+                    let x = gen_endpoint(r, g);
+                    let y = if r.chance(1, 5) { x.clone() } else { gen_endpoint(r, g) };
+                    if r.chance(2, 3) {
+                        json!({"t":"fp","x":x,"y":y,"fp": if r.chance(1,4) {"empty"} else {"impossible"}})
+                    } else {
+                        let nv = r.below(3);
+                        let vals: Vec<Value> = (0..nv)
+                            .map(|_| json!({"e": gen_entry(r, g, now), "cls": "ok", "cs": r.below(3)}))
+                            .collect();
+                        json!({"t":"item","x":x,"y":y,"vals":vals,"hl":r.chance(1,3)})
+                    }
+                })
+                .collect();
+            let c = *r.pick(&[(2u64, 1u64), (2, 2), (3, 1), (4, 1), (3, 2), (5, 3)]);
+            json!({"op":"msg","parts":parts,"from":1 + r.below(2),"now":now,"split":c.0,"maxset":c.1})
         } else if g.msgs && x < 65 {
             // a message with 1..3 item parts (have_local = true so that no reply diff is computed
             // for most of them), entries of any class
